@@ -1,8 +1,237 @@
 import VerylModel.Core.Store
+import VerylModel.Lemmas.Store
+/-!
+# C29 — the cache store behaves like a versioned key-value map
+
+"After any sequence of open, put, keep, invalidate, set-dependents and save operations, reopening
+the store with the same key returns, for each source path, exactly the entry and blob bytes of the
+last saved build. Reopening with a different key or schema returns no entries. Saving never deletes
+a blob that the saved manifest references."
+
+All theorems quantify over **all** operation sequences `ops : List Op` run from the empty cache
+directory `init` (`run c init ops`), for arbitrary constants `c` (schema version, blob header).
+`Inv`, `abs`, `astep` are defined in `Core/Store.lean` / `Lemmas/Store.lean`.
+-/
 namespace VerylModel.Props.C29
 open VerylModel.Store
 
-/-- C29 (second sentence): reopening with a different key or schema returns no entries. -/
+/-! ## T5 — invariant -/
+
+/-- `Inv` holds initially and is preserved by every operation. -/
+theorem inv_preserved (c : Consts) (s : State) (o : Op) (h : Inv c s) : Inv c (step c s o) :=
+  inv_step h o
+
+/-- Every reachable state satisfies the invariant. -/
+theorem inv_reachable (c : Consts) (ops : List Op) : Inv c (run c init ops) :=
+  inv_run (inv_init c) ops
+
+/-- The invariant spelled out, for every reachable state: blob files are content addressed and
+    readable; the on-disk manifest has the current schema and no dangling reference; neither have
+    `manifest.files` / `next_files` of the open store; `on_disk_current` means the on-disk manifest
+    is the in-memory one. -/
+theorem reachable_facts (c : Consts) (ops : List Op) :
+    let s := run c init ops
+    (∀ n data, findBlob s.1.blobs n = some data →
+        data = n ∧ ∃ payload, n = c.header ++ payload ∧ readBlob c s.1 n = some payload) ∧
+    (∀ mf, s.1.manifest = some mf →
+        mf.schema = c.schemaVersion ∧ ∀ n ∈ referenced mf.files, ∃ data, findBlob s.1.blobs n = some data) ∧
+    (∀ m, s.2 = some m →
+        (∀ n ∈ referenced m.files, ∃ data, findBlob s.1.blobs n = some data) ∧
+        (∀ n ∈ referenced m.next, ∃ data, findBlob s.1.blobs n = some data) ∧
+        (m.onDiskCurrent = true →
+          s.1.manifest = some { schema := c.schemaVersion, key := m.key, files := m.files })) := by
+  intro s
+  have h : Inv c s := inv_reachable c ops
+  refine ⟨?_, ?_, ?_⟩
+  · intro n data hd
+    obtain ⟨h1, _⟩ := h.blobs.find hd
+    obtain ⟨payload, hp, hr⟩ := readBlob_of_present h.blobs ⟨data, hd⟩
+    exact ⟨h1, payload, hp, hr⟩
+  · intro mf hmf
+    exact ⟨h.diskSchema mf hmf, h.diskRefs mf hmf⟩
+  · intro m hm
+    exact ⟨h.memFiles m hm, h.memNext m hm, h.current m hm⟩
+
+/-- The association lists of the model are maps (as the `BTreeMap`s they stand for): in every
+    reachable state the keys of the on-disk manifest, of `manifest.files` and of `next_files` are
+    pairwise distinct. -/
+theorem keys_unique (c : Consts) (ops : List Op) :
+    let s := run c init ops
+    (∀ mf, s.1.manifest = some mf → (mf.files.map Prod.fst).Nodup) ∧
+    (∀ m, s.2 = some m → (m.files.map Prod.fst).Nodup ∧ (m.next.map Prod.fst).Nodup) := by
+  intro s
+  have h : Uniq s := uniq_run uniq_init ops
+  exact ⟨h.disk, fun m hm => ⟨h.files m hm, h.next m hm⟩⟩
+
+/-- Hence the skip test of `save` is `BTreeMap ==`: in a reachable state the write is skipped
+    exactly when `on_disk_current` and both maps answer every path alike. -/
+theorem skip_iff_same_map (c : Consts) (ops : List Op) (m : Mem) (hm : (run c init ops).2 = some m) :
+    (m.onDiskCurrent && mapEq m.next m.files) = true ↔
+      (m.onDiskCurrent = true ∧ ∀ p, lookup m.next p = lookup m.files p) := by
+  have h : Uniq (run c init ops) := uniq_run uniq_init ops
+  rw [Bool.and_eq_true, mapEq_iff (h.next m hm) (h.files m hm)]
+
+/-! ## T1 — refinement of the abstract versioned map -/
+
+/-- Every operation commutes with the abstraction function, on every state satisfying `Inv`. -/
+theorem refines (c : Consts) (s : State) (o : Op) (h : Inv c s) :
+    abs c (step c s o) = astep (abs c s) o :=
+  refines_step h o
+
+/-- Hence every operation sequence from the empty directory is simulated by the abstract machine,
+    which stores payload bytes directly and has no blobs, no skip-write and no GC. -/
+theorem refines_all (c : Consts) (ops : List Op) : abs c (run c init ops) = arun ainit ops := by
+  rw [refines_run (inv_init c) ops, abs_init]
+
+/-- What the disk records is, at any time, the last saved build of the abstract machine. -/
+theorem disk_is_last_saved_build (c : Consts) (ops : List Op) :
+    absDisk c (run c init ops).1 = (arun ainit ops).saved :=
+  congrArg AState.saved (refines_all c ops)
+
+/-- Only `save` changes the saved build (put / set_diagnostics write blobs, but no observation of
+    the saved build changes). -/
+theorem saved_unchanged (c : Consts) (s : State) (o : Op) (h : Inv c s) (ho : o ≠ Op.save) :
+    absDisk c (step c s o).1 = absDisk c s.1 := by
+  have := congrArg AState.saved (refines_step h o)
+  rw [astep_saved _ ho] at this
+  exact this
+
+/-- The abstract machine is the intended specification: `put` records the payload itself, … -/
+theorem spec_put (a : AState) (s : ASession) (hs : a.sess = some s) (p h : String) (b : Option String) :
+    (astep a (.put p h b)).sess.map (fun s' => s'.next p) =
+      some (some { hash := h, dependents := [], tests := [], fragment := b, diagnostics := none }) := by
+  simp [astep, hs, AbsFiles.set]
+
+/-- … and reopening with the key of the last `save` shows exactly the build that was saved. -/
+theorem spec_reopen (a : AState) (s : ASession) (hs : a.sess = some s) (rest : List Op)
+    (hrest : ∀ o ∈ rest, o ≠ Op.save) :
+    (astep (arun (astep a .save) rest) (.open s.key)).sess.map (fun s' => s'.prev) = some s.next := by
+  have hsave : astep a .save =
+      { saved := some (s.key, s.next), sess := some { s with prev := s.next, next := AbsFiles.empty } } := by
+    obtain ⟨sv, ss⟩ := a
+    cases hs; rfl
+  have h1 : (arun (astep a .save) rest).saved = some (s.key, s.next) := by
+    rw [arun_saved _ hrest, hsave]
+  show some ((arun (astep a .save) rest).saved.visible s.key) = some s.next
+  rw [h1]
+  simp [Spec.visible]
+
+/-! ## T4 — the skip-write shortcut -/
+
+/-- An identical re-scan (`on_disk_current && next_files == manifest.files`) skips the write.
+    The result is indistinguishable from the write: same abstract state; the manifest on disk is
+    (as a map) the manifest the write would produce; every blob file the write would leave is there
+    with the same bytes. -/
+theorem skip_write_sound (c : Consts) (ops : List Op) (m : Mem)
+    (hm : (run c init ops).2 = some m)
+    (hskip : (m.onDiskCurrent && mapEq m.next m.files) = true) :
+    let d := (run c init ops).1
+    save c d m = (d, { m with next := [] }) ∧
+    abs c ((save c d m).1, some (save c d m).2)
+      = abs c ((saveWrite c d m).1, some (saveWrite c d m).2) ∧
+    (∃ mf, d.manifest = some mf ∧ mf.schema = c.schemaVersion ∧ mf.key = m.key ∧
+      mapEq mf.files m.next = true) ∧
+    (∀ n data, findBlob (saveWrite c d m).1.blobs n = some data → findBlob d.blobs n = some data) := by
+  intro d
+  have hinv : Inv c (d, some m) := by
+    have := inv_reachable c ops
+    rw [show run c init ops = (d, some m) from Prod.ext rfl hm] at this
+    exact this
+  have hcur : m.onDiskCurrent = true := by
+    cases hc : m.onDiskCurrent <;> simp [hc] at hskip ⊢
+  have heq : mapEq m.next m.files = true := by
+    rw [hcur] at hskip; simpa using hskip
+  refine ⟨save_skip hskip, ?_, ?_, ?_⟩
+  · rw [save_skip hskip, abs_saveWrite]
+    exact abs_saveSkip hinv hskip
+  · refine ⟨_, hinv.current m rfl hcur, rfl, rfl, ?_⟩
+    unfold mapEq at heq ⊢
+    rw [Bool.and_comm]; exact heq
+  · intro n data h
+    exact gc_find_sub h
+
+/-- Literal equality of the two disks does **not** hold: the skipped save also skips the GC walk,
+    so a blob written by a `put` that the re-scan later overwrote stays as an unreferenced file
+    until the next non-skipped save. (Harmless for C29: no observation of the store sees it.) -/
+theorem skip_write_disk_eq_false :
+    ¬ ∀ (c : Consts) (ops : List Op) (m : Mem), (run c init ops).2 = some m →
+        (m.onDiskCurrent && mapEq m.next m.files) = true →
+        (save c (run c init ops).1 m).1.blobs = (saveWrite c (run c init ops).1 m).1.blobs := by
+  intro h
+  have := h ⟨2, "H"⟩ [.open "k", .save, .put "a" "h" (some "y"), .drop, .open "k"]
+    ⟨"k", [], [], true⟩ (by decide) (by decide)
+  revert this
+  decide
+
+/-! ## First sentence — reopening with the same key -/
+
+/-- After any operation sequence `ops` that leaves a store open, then `save`, then any operations
+    `rest` without a further save (including puts, drop, opens with other keys): opening with the
+    key of the saved build returns, for every path, exactly the entry that was in `next_files` at
+    the save, and `load` / `load_diagnostics` return exactly what they returned for that entry at
+    the save (the bytes of the last saved build). -/
+theorem reopen_same_key (c : Consts) (ops rest : List Op) (m : Mem)
+    (hm : (run c init ops).2 = some m) (hrest : ∀ o ∈ rest, o ≠ Op.save) :
+    let d := (run c init ops).1
+    let d' := (run c init (ops ++ Op.save :: rest)).1
+    ∀ p, entry (openStore c d' m.key) p = lookup m.next p ∧
+      ∀ e, lookup m.next p = some e →
+        load c d' e = load c d e ∧ loadDiagnostics c d' e = loadDiagnostics c d e := by
+  intro d d' p
+  have hs0 : run c init ops = (d, some m) := Prod.ext rfl hm
+  have hinv : Inv c (d, some m) := hs0 ▸ inv_reachable c ops
+  have hd' : d' = (run c ((save c d m).1, some (save c d m).2) rest).1 := by
+    show (run c init (ops ++ Op.save :: rest)).1 = _
+    rw [run_append, hs0, run_cons, step_save]
+  obtain ⟨mf, hmf, hsch, hkey, hlk⟩ := save_manifest hinv
+  have hman : d'.manifest = some mf := by
+    rw [hd', run_manifest _ hrest]; exact hmf
+  have hext : Ext (save c d m).1.blobs d'.blobs := by
+    rw [hd']; exact run_ext (c := c) ((save c d m).1, some (save c d m).2) hrest
+  refine ⟨?_, ?_⟩
+  · rw [← hkey, entry_openStore hman hsch, hlk]
+  · intro e he
+    have hfind : ∀ n, e.refs n → findBlob d'.blobs n = findBlob d.blobs n := by
+      intro n hr
+      have hn : n ∈ referenced m.next := mem_referenced.mpr ⟨p, e, mem_of_lookup he, hr⟩
+      have hp : Present d.blobs n := hinv.memNext m rfl n hn
+      have h1 : findBlob (save c d m).1.blobs n = findBlob d.blobs n := save_find hn
+      have hp1 : Present (save c d m).1.blobs n := by
+        unfold Present; rw [h1]; exact hp
+      rw [find_eq_of_ext hext hp1, h1]
+    exact ⟨load_congr hfind, loadDiagnostics_congr hfind⟩
+
+/-- The same, against the abstract machine: the reopened store shows, per path, hash, dependents,
+    tests and the *payload bytes* of fragment and diagnostics exactly as the abstract machine
+    recorded them from the `put` / `set_diagnostics` / `keep` / … calls of the saved build. -/
+theorem reopen_same_key_payloads (c : Consts) (ops rest : List Op) (sess : ASession)
+    (hsess : (arun ainit ops).sess = some sess) (hrest : ∀ o ∈ rest, o ≠ Op.save) :
+    let d' := (run c init (ops ++ Op.save :: rest)).1
+    ∀ p, (entry (openStore c d' sess.key) p).map (absEntry c d') = sess.next p := by
+  intro d' p
+  have habs := refines_all c ops
+  cases hm : (run c init ops).2 with
+  | none =>
+    have : (abs c (run c init ops)).sess = none := by simp [abs, hm]
+    rw [habs, hsess] at this; cases this
+  | some m =>
+    have h2 : (abs c (run c init ops)).sess = some (absMem c (run c init ops).1 m) := by
+      simp [abs, hm]
+    rw [habs, hsess] at h2
+    cases h2
+    obtain ⟨h1, h3⟩ := reopen_same_key c ops rest m hm hrest p
+    show Option.map _ (entry (openStore c d' m.key) p) = Option.map _ (lookup m.next p)
+    rw [h1]
+    cases he : lookup m.next p with
+    | none => rfl
+    | some e =>
+      obtain ⟨hl, hd⟩ := h3 e he
+      simp only [Option.map_some, absEntry]
+      rw [show load c d' e = _ from hl, show loadDiagnostics c d' e = _ from hd]
+
+/-! ## Second sentence — other key, other schema -/
+
+/-- Reopening with a different key or schema returns no entries (any disk). -/
 theorem other_key_empty (c : Consts) (d : Disk) (key p : String)
     (h : ∀ m, d.manifest = some m → ¬ (m.schema = c.schemaVersion ∧ m.key = key)) :
     entry (openStore c d key) p = none := by
@@ -11,6 +240,163 @@ theorem other_key_empty (c : Consts) (d : Disk) (key p : String)
   | none => simp [entry, lookup]
   | some m =>
     have := h m hm
-    simp [this, entry, lookup]
+    simp [this, entry]
+
+/-- Schema-mismatch variant (any disk): a manifest of another schema version gives no entries. -/
+theorem other_schema_empty (c : Consts) (d : Disk) (mf : Manifest) (key p : String)
+    (hd : d.manifest = some mf) (hs : mf.schema ≠ c.schemaVersion) :
+    entry (openStore c d key) p = none :=
+  other_key_empty c d key p (fun m hm hc => by rw [hd] at hm; cases hm; exact hs hc.1)
+
+/-- After a save under one key and any further operations without a save, opening with any
+    other key returns no entry. -/
+theorem reopen_other_key (c : Consts) (ops rest : List Op) (m : Mem)
+    (hm : (run c init ops).2 = some m) (hrest : ∀ o ∈ rest, o ≠ Op.save)
+    (key : String) (hk : key ≠ m.key) (p : String) :
+    entry (openStore c (run c init (ops ++ Op.save :: rest)).1 key) p = none := by
+  have hs0 : run c init ops = ((run c init ops).1, some m) := Prod.ext rfl hm
+  have hinv : Inv c ((run c init ops).1, some m) := hs0 ▸ inv_reachable c ops
+  obtain ⟨mf, hmf, _, hkey, _⟩ := save_manifest hinv
+  have hman : (run c init (ops ++ Op.save :: rest)).1.manifest = some mf := by
+    rw [run_append, hs0, run_cons, step_save, run_manifest _ hrest]; exact hmf
+  apply other_key_empty
+  intro m' hm' hc
+  rw [hman] at hm'; cases hm'
+  exact hk (hc.2.symm.trans hkey)
+
+/-- A store written by schema version `c` (any operation sequence), opened by a binary with a
+    different schema version `c'`, returns no entry, for any key. -/
+theorem reopen_other_schema (c c' : Consts) (hs : c'.schemaVersion ≠ c.schemaVersion)
+    (ops : List Op) (key p : String) :
+    entry (openStore c' (run c init ops).1 key) p = none := by
+  apply other_key_empty
+  intro mf hmf hc
+  exact hs (hc.1.symm.trans ((inv_reachable c ops).diskSchema mf hmf))
+
+/-! ## Third sentence — GC -/
+
+/-- After `save` (skipped or not), every blob named by the manifest now on disk is still a file,
+    with the bytes it had before the save, and `read_blob` returns its payload. -/
+theorem gc_keeps_referenced (c : Consts) (ops : List Op) (m : Mem)
+    (hm : (run c init ops).2 = some m) :
+    let d := (run c init ops).1
+    let d' := (save c d m).1
+    ∀ mf, d'.manifest = some mf → ∀ n ∈ referenced mf.files,
+      ∃ data, findBlob d'.blobs n = some data ∧ findBlob d.blobs n = some data ∧
+        ∃ payload, data = c.header ++ payload ∧ readBlob c d' n = some payload := by
+  intro d d' mf hmf n hn
+  have hs0 : run c init ops = (d, some m) := Prod.ext rfl hm
+  have hinv : Inv c (d, some m) := hs0 ▸ inv_reachable c ops
+  have hinv' : Inv c (d', some (save c d m).2) := inv_save hinv
+  obtain ⟨data, hd⟩ := hinv'.diskRefs mf hmf n hn
+  obtain ⟨hdn, _⟩ := hinv'.blobs.find hd
+  obtain ⟨payload, hp, hr⟩ := readBlob_of_present hinv'.blobs ⟨data, hd⟩
+  refine ⟨data, hd, ?_, payload, hdn.trans hp, hr⟩
+  cases hs : (m.onDiskCurrent && mapEq m.next m.files) with
+  | true =>
+    have : d' = d := by show (save c d m).1 = d; rw [save_skip hs]
+    rw [← this]; exact hd
+  | false =>
+    have : d' = (saveWrite c d m).1 := by show (save c d m).1 = _; rw [save_write hs]
+    rw [this] at hd
+    exact gc_find_sub hd
+
+/-- Conversely a non-skipped `save` leaves no other blob file: everything on disk afterwards is
+    referenced by the saved manifest (and was there before). -/
+theorem gc_removes_unreferenced (c : Consts) (d : Disk) (m : Mem)
+    (hw : (m.onDiskCurrent && mapEq m.next m.files) = false) :
+    ∀ nd ∈ (save c d m).1.blobs, nd.1 ∈ referenced m.next ∧ nd ∈ d.blobs := by
+  intro nd h
+  rw [save_write hw] at h
+  exact saveWrite_blobs_referenced h
+
+/-- In particular the blobs of the build being saved: each blob `next_files` refers to survives the
+    save with its bytes. -/
+theorem save_keeps_next_blobs (c : Consts) (ops : List Op) (m : Mem)
+    (hm : (run c init ops).2 = some m) :
+    let d := (run c init ops).1
+    ∀ n ∈ referenced m.next, ∃ data, findBlob (save c d m).1.blobs n = some data ∧
+      findBlob d.blobs n = some data := by
+  intro d n hn
+  have hs0 : run c init ops = (d, some m) := Prod.ext rfl hm
+  have hinv : Inv c (d, some m) := hs0 ▸ inv_reachable c ops
+  obtain ⟨data, hd⟩ := hinv.memNext m rfl n hn
+  exact ⟨data, by rw [save_find hn]; exact hd, hd⟩
+
+/-! ## Non-vacuity: a concrete history with an identical re-scan and a key change -/
+
+/-- The constants of the driver (`Driver/Store.lean`) for `SCHEMA_VERSION = 2`. -/
+def exConsts : Consts := { schemaVersion := 2, header := "VFRG#2#" }
+
+/-- First build under key `k1` (two files, one with fragment + dependents + diagnostics, one
+    uncacheable), saved; then an identical re-scan (`keep` everything). -/
+def exBuild : List Op :=
+  [.open "k1", .put "a" "h1" (some "abcd"), .put "b" "h2" none, .setDependents "a" ["b", "c"],
+   .setDiagnostics "a" "warn", .setDiagnostics "b" "lost", .save, .keep "a", .keep "b"]
+
+/-- After the second save: close, open under another key, start (but do not save) a build. -/
+def exRest : List Op := [.drop, .open "k2", .put "a" "h3" (some "zz"), .invalidate "a"]
+
+/-- The hypotheses of `reopen_same_key*` / `skip_write_sound` / `gc_keeps_referenced` hold for
+    `exBuild`: a store is open, and the second save is an identical re-scan (write skipped). -/
+example : (run exConsts init exBuild).2.map
+      (fun m => (m.key, m.onDiskCurrent && mapEq m.next m.files, m.next.length)) =
+    some ("k1", true, 2) := by decide
+
+example : ∀ o ∈ exRest, o ≠ Op.save := by decide
+
+/-- The abstract machine's pending build at the second save (payload bytes as they were put). -/
+example : (arun ainit exBuild).sess.map (fun s => (s.key, s.next "a", s.next "b", s.next "c")) =
+    some ("k1",
+      some { hash := "h1", dependents := ["b", "c"], tests := [], fragment := some "abcd",
+             diagnostics := some "warn" },
+      some { hash := "h2", dependents := [], tests := [], fragment := none, diagnostics := none },
+      none) := by decide
+
+/-- Conclusion of `reopen_same_key_payloads` on this history: after the re-scan save, the key
+    change and the unsaved build under `k2`, reopening with `k1` shows the first build, bytes
+    included; reopening with `k2` or `k3` shows nothing. -/
+example :
+    let d' := (run exConsts init (exBuild ++ Op.save :: exRest)).1
+    (entry (openStore exConsts d' "k1") "a").map (absEntry exConsts d') =
+      some { hash := "h1", dependents := ["b", "c"], tests := [], fragment := some "abcd",
+             diagnostics := some "warn" } ∧
+    (entry (openStore exConsts d' "k1") "b").map (absEntry exConsts d') =
+      some { hash := "h2", dependents := [], tests := [], fragment := none, diagnostics := none } ∧
+    entry (openStore exConsts d' "k1") "c" = none ∧
+    entry (openStore exConsts d' "k2") "a" = none ∧
+    (d'.blobs.map Prod.fst).length = 3 := by
+  intro d'
+  obtain ⟨s, hs, hk, ha, hb⟩ : ∃ s, (arun ainit exBuild).sess = some s ∧ s.key = "k1" ∧
+      s.next "a" = some { hash := "h1", dependents := ["b", "c"], tests := [], fragment := some "abcd",
+                          diagnostics := some "warn" } ∧
+      s.next "b" = some { hash := "h2", dependents := [], tests := [], fragment := none,
+                          diagnostics := none } := by
+    refine ⟨_, rfl, ?_, ?_, ?_⟩ <;> decide
+  have h := reopen_same_key_payloads exConsts exBuild exRest s hs (by decide)
+  rw [hk] at h
+  refine ⟨(h "a").trans ha, (h "b").trans hb, ?_, ?_, ?_⟩
+  · decide
+  · decide
+  · decide
+
+/-- A non-skipped save after a key change garbage-collects the old build's blobs, and keeps the
+    new one's (`gc_keeps_referenced` with a non-trivial manifest and a non-trivial deletion). -/
+example :
+    let s := run exConsts init (exBuild ++ Op.save :: exRest)
+    s.2.map (fun m => (m.onDiskCurrent && mapEq m.next m.files, s.1.blobs.length,
+      (save exConsts s.1 m).1.blobs.length, referenced m.next)) = some (false, 3, 0, []) := by decide
+
+example :
+    let s := run exConsts init (exBuild ++ Op.save :: (exRest ++ [.put "b" "h4" (some "q")]))
+    s.2.map (fun m => (s.1.blobs.length, (save exConsts s.1 m).1.blobs.map Prod.fst, referenced m.next)) =
+      some (4, ["VFRG#2#q"], ["VFRG#2#q"]) := by decide
+
+/-- `reopen_other_schema` / `other_schema_empty` are not vacuous: the same disk that shows the
+    build to schema version 2 shows nothing to a binary with schema version 3. -/
+example :
+    let d := (run exConsts init (exBuild ++ [Op.save])).1
+    (entry (openStore exConsts d "k1") "a").isSome = true ∧
+    entry (openStore { schemaVersion := 3, header := "VFRG#3#" } d "k1") "a" = none := by decide
 
 end VerylModel.Props.C29
